@@ -75,6 +75,7 @@ sys.dont_write_bytecode = True
 repo, here = sys.argv[1], sys.argv[2]
 sys.path.insert(0, repo); sys.path.insert(0, here)
 logging.disable(logging.CRITICAL)
+_out = sys.stdout; sys.stdout = open("/dev/null", "w")  # the library prints while tracking transmissions
 import importlib, props
 for m in props.CONTRACT_MODULES: importlib.import_module(m)
 from pyvc.contract import replay, shape_from_json
@@ -87,7 +88,7 @@ for item in json.load(sys.stdin):
         import traceback
         r = dict(crash=traceback.format_exc()[-800:], failed=[], checked=[], exception=None, drawn={})
     out.append(r)
-json.dump(out, sys.stdout)
+json.dump(out, _out)
 """
 
 
@@ -247,8 +248,18 @@ def main():
             agg[k] = dict(instances=per_contract[n]["paths"], by_backend={"explore": per_contract[n]["paths"]}, seconds=0.0)
 
     # ---------------- native replay of every refutation (fresh interpreter, real code, no models)
+    # (canaries first; at most PER_OBLIGATION replays per failed obligation - a broken callee refutes thousands of paths)
     cand = refuted + unexpected
-    MAXREPLAY = 3000
+    PER_OBLIGATION, MAXREPLAY = 60, 3000
+    seen_ob = {}
+    first, rest = [], []
+    for x in cand:
+        k = (x["contract"], x["clause"])
+        seen_ob[k] = seen_ob.get(k, 0) + 1
+        (first if seen_ob[k] <= PER_OBLIGATION or REGISTRY[x["contract"]].canary else rest).append(x)
+    first.sort(key=lambda x: not REGISTRY[x["contract"]].canary)
+    cand = first[:MAXREPLAY] + first[MAXREPLAY:] + rest
+    MAXREPLAY = min(MAXREPLAY, len(first))
     items = [dict(contract=x["contract"], shape=x["shape"], witness=x["witness"]) for x in cand[:MAXREPLAY]]
     t1 = time.time()
     rep = native_batch(items, a.jobs)
@@ -274,7 +285,7 @@ def main():
             engine_disagreements.append(x)
     for x in cand[MAXREPLAY:]:
         x["replay"] = None
-        x["confirmed"] = None
+        x["confirmed"] = "not-replayed"  # beyond the per-obligation cap; siblings of the same obligation were replayed
 
     # ---------------- CPython cross-check / bounded stand-in: the same contract text natively on random contents
     rnd_items = []
